@@ -358,8 +358,8 @@ func (l *Lexer) readIdentifier() string {
 func (l *Lexer) readString() (string, int, int, int) {
 	var sb strings.Builder
 	var endLine, endChar, endUtf8Char int
-	for l.ch == '"' {
-		if sb.Len() > 0 {
+	for isFirstPart := true; l.ch == '"'; isFirstPart = false {
+		if !isFirstPart {
 			sb.WriteString("\n")
 		}
 		l.readChar()
